@@ -79,7 +79,7 @@ PLAN = {
         "assumptions": [
             "sources over Vec / file / mmap / background decoder are built through the cfg-gated hook jubako::verif (ByteRegion constructors); the container route (content #2 of a raw/compressed cluster) needs no hook",
             "thorough tier only: the release walk is repeated with every read(2) on a file of the scratch area returning at most 13 bytes (shim/shortread.c)",
-            "payload lengths 0..5 (quick) / 0..7 (thorough) plus one 5000-byte payload per source; the decoder runs on the real rayon pool, its schedule is not controlled here (C07's subject)",
+            "payload lengths 0..5 (quick) / 0..8 (thorough) plus one 5000-byte payload per source; the decoder runs on the real rayon pool, its schedule is not controlled here (C07's subject)",
         ],
     },
     "C10": {
